@@ -169,8 +169,14 @@ def _key_chain(ctx, rep, ci, it):
 
 # ------------------------------------------------------------------------- R9.3
 def _group_loop(ctx, rep, it, filter_ok):
+    # the loop over the groups: over rowgroupby(...) itself or over a local bound to it
+    gnames = {'grouped'}
+    for n in own_nodes(it.node):
+        if isinstance(n, ast.Assign) and len(n.targets) == 1 and isinstance(n.targets[0], ast.Name) and \
+                isinstance(n.value, ast.Call) and 'rowgroupby' in norm(n.value.func):
+            gnames.add(n.targets[0].id)
     loops = [n for n in own_nodes(it.node) if isinstance(n, ast.For) and
-             (('rowgroupby' in norm(n.iter)) or norm(n.iter) == 'grouped')]
+             (('rowgroupby' in norm(n.iter)) or norm(n.iter) in gnames)]
     if not loops:
         raise AnalysisError('anchor vanished: group loop in %s' % it.fq)
     for lp in loops:
@@ -204,7 +210,19 @@ def _group_loop(ctx, rep, it, filter_ok):
                         bad.append((n, 'rows of the group are filtered before aggregation (`if %s`)' % norm(gen.ifs[0])))
             if isinstance(n, ast.Call) and norm(n.func) in ('next',) and n.args and isinstance(n.args[0], ast.Name) \
                     and n.args[0].id == gvar:
-                bad.append((n, 'a row is taken off the group before it is aggregated'))
+                # the seed of an explicit left fold (`acc = next(g); for v in g: acc = f(acc, v)`) is aggregated, not dropped
+                seed = [a for a in ast.walk(lp) if isinstance(a, ast.Assign) and a.value is n and len(a.targets) == 1 and
+                        isinstance(a.targets[0], ast.Name)]
+                folded = False
+                if seed:
+                    acc = seed[0].targets[0].id
+                    for f2 in ast.walk(lp):
+                        if isinstance(f2, ast.For) and isinstance(f2.iter, ast.Name) and f2.iter.id == gvar and \
+                                any(isinstance(a, ast.Assign) and any(norm(t) == acc for t in a.targets) and
+                                    any(isinstance(y, ast.Name) and y.id == acc for y in ast.walk(a.value)) for a in ast.walk(f2)):
+                            folded = True
+                if not folded:
+                    bad.append((n, 'a row is taken off the group before it is aggregated'))
         if bad:
             for n, why in bad:
                 rep.violated('R9.3', it, norm(n)[:70], '%s: the aggregate is no longer computed from exactly the rows of the '
@@ -237,16 +255,46 @@ def _rowgroupby(ctx, rep):
                 return None
             k = e.generators[0].target.elts[0].id
             first = norm(e.elt.elts[0])
+            if first in ("operator.attrgetter('inner')(%s)" % k, "attrgetter('inner')(%s)" % k):
+                first = k + '.inner'        # the unwrapping written as a function value
             if first == k:
                 return inner
             if first == k + '.inner' and inner[1] == 'K':
                 return inner[0], 'K.inner'
             return inner[0], None
         return None
+
+    def feasible(pth):
+        """a test the valuation left open may still be decided by what the path itself assigned (a flag that is None or
+        a function): drop the paths that took the other branch"""
+        eff = list(pth.effects)
+        for test, outcome in pth.free:
+            t = test
+            neg = False
+            while isinstance(t, ast.UnaryOp) and isinstance(t.op, ast.Not):
+                t, neg = t.operand, not neg
+            if isinstance(t, ast.Compare) and len(t.ops) == 1 and isinstance(t.ops[0], (ast.Is, ast.IsNot)) and \
+                    isinstance(t.comparators[0], ast.Constant) and t.comparators[0].value is None and isinstance(t.left, ast.Name):
+                v = resolve(t.left, eff)
+                if isinstance(v, ast.Constant) and v.value is None:
+                    val = True
+                elif isinstance(v, (ast.Call, ast.Lambda, ast.Attribute)) or (isinstance(v, ast.Constant) and v.value is not None):
+                    val = False
+                else:
+                    continue
+                if isinstance(t.ops[0], ast.IsNot):
+                    val = not val
+                if neg:
+                    val = not val
+                if val != outcome:
+                    return False
+        return True
     seen = 0
     for is_callable in (True, False):
         for pth in paths(fn.node.body, {'callable(key)': is_callable}, defs, track=True, limit=64):
             if pth.kind != 'return' or pth.node.value is None:
+                continue
+            if not feasible(pth):
                 continue
             r = pth.node
             c = '%s [callable key: %s]' % (norm(r)[:60], is_callable)
